@@ -223,7 +223,9 @@ pub fn show_reply_resp<C: std::fmt::Debug, E: std::fmt::Display>(r: Result<Respo
         Ok(resp) => format!(
             "ok {} events={} data={} stored={}",
             show_attrs(&resp.attributes),
-            resp.events.len(),
+            // the number of events, all of them being the sub-message's own events as they came (type, attributes, reserved keys
+            // included): forwarded events must be forwarded unchanged
+            if resp.events.iter().enumerate().all(|(i, e)| *e == reply_event(i)) { resp.events.len().to_string() } else { format!("altered:{:?}", resp.events) },
             resp.data.as_ref().map(|d| hex(d.as_slice())).unwrap_or_else(|| "-".into()),
             String::from_utf8_lossy(&storage.get(b"ran").unwrap_or_default())
         ),
@@ -231,11 +233,19 @@ pub fn show_reply_resp<C: std::fmt::Debug, E: std::fmt::Display>(r: Result<Respo
     }
 }
 
+/// the i-th event of a synthetic sub-message response: like the chain's `execute` / `wasm` events it carries an attribute under a
+/// reserved (underscore) key
+pub fn reply_event(i: usize) -> Event {
+    let mut e = Event::new(format!("ev{}", i)).add_attribute("k", "v");
+    e.attributes.push(Attribute { key: "_contract_address".into(), value: format!("c{}", i) });
+    e
+}
+
 pub fn mk_reply(id: u64, gas: u64, ok: bool, nevents: usize, data: Option<Vec<u8>>, nmsgr: usize, err: &str, payload: Vec<u8>) -> Reply {
     #[allow(deprecated)]
     let result = if ok {
         SubMsgResult::Ok(SubMsgResponse {
-            events: (0..nevents).map(|i| Event::new(format!("ev{}", i)).add_attribute("k", "v")).collect(),
+            events: (0..nevents).map(reply_event).collect(),
             data: data.map(Binary::from),
             msg_responses: (0..nmsgr).map(|i| sylvia::cw_std::MsgResponse { type_url: format!("/t{}", i), value: Binary::from(vec![i as u8]) }).collect(),
         })
